@@ -666,7 +666,34 @@ def check(rep, prog, fn):
                               '(when its live degree becomes 1 and again when it becomes 0), so the count reaches n while live vertices - a whole cycle - remain' % V[counter]['name'],
                               key='R13f|%s|pop-counter' % fn.g)
             else:
-                rep.undecided('R13f', r, fn, whatf, 'early return under `%s`: not in the idiom table' % conds[0][0].text(40))
+                # the guard as a function of the graph's shape: a simple graph with n vertices and m edges can hold a cycle iff n >= 3 and
+                # 3 <= m <= n(n-1)/2 (a triangle plus isolated vertices / pendant edges); a return taken for such a shape emits nothing for it
+                defs = {d.decl_id: d.c[0] for d in fn.walk() if d.k == 'VarDecl' and d.c and len(ex.assignments_to(fn, d.decl_id)) == 1}
+                bad = unknown = None
+                for n_ in range(0, 8):
+                    for m_ in range(0, n_ * (n_ - 1) // 2 + 1):
+                        def bind(s_, m_=m_, n_=n_):
+                            if s_.k == 'CallExpr' and s_.callee:
+                                return {'boost::num_edges': m_, 'boost::num_vertices': n_}.get(s_.callee['g'])
+                            return None
+                        try:
+                            holds = all(bool(ex.ceval(c_, bind, defs)) == pol for (c_, pol) in conds)
+                        except ex.Unknown as e_:
+                            unknown = str(e_)
+                            break
+                        if holds and n_ >= 3 and m_ >= 3:
+                            bad = (n_, m_)
+                            break
+                    if bad or unknown:
+                        break
+                if unknown:
+                    rep.undecided('R13f', r, fn, whatf, 'early return under `%s`: not in the idiom table (%s)' % (conds[0][0].text(40), unknown[:60]))
+                elif bad:
+                    rep.violation('R13f', r, fn, whatf, 'the early return under `%s` is taken for a graph with %d vertices and %d edges, e.g. a triangle next to %d further '
+                                  'vertices joined by %d more edges: it has a cycle and nothing is emitted for it' % (
+                                      conds[0][0].text(40), bad[0], bad[1], bad[0] - 3, bad[1] - 3), key='R13f|%s|shape' % fn.g)
+                else:
+                    rep.ok('R13f', r, fn, whatf, 'guard `%s` holds for no graph shape (n <= 7) that admits a cycle' % conds[0][0].text(40))
     return nsib
 
 
